@@ -551,7 +551,15 @@ int load_topology(const Env &env, TopoState &ts, const std::string &kind, const 
   int rc = 0;
   if (kind == "synth") rc = hwloc_topology_set_synthetic(t, val.c_str());
   else if (kind == "xml") rc = hwloc_topology_set_xml(t, (env.data + "/xml/" + val).c_str());
-  else if (kind == "xmlbuf") { auto it = env.xmlbuf.find(val); if (it == env.xmlbuf.end()) rc = -1; else rc = hwloc_topology_set_xmlbuffer(t, it->second.data(), (int)it->second.size() + 1); }
+  else if (kind == "xmlbuf") { auto it = env.xmlbuf.find(val); if (it == env.xmlbuf.end()) rc = -1; else {
+      // a quarter of the buffer loads are preceded, on the same handle, by a load of the document cut in the middle: it fails (at set or at load,
+      // depending on the parser), the handle is then configured with the whole document. A failed XML load of one task is nobody else's business.
+      if (((cfgbits >> 2) & 3) == 2 && it->second.size() > 200) {
+        std::string cut = it->second.substr(0, it->second.size() / 2);
+        int fa = hwloc_topology_set_xmlbuffer(t, cut.data(), (int)cut.size() + 1); d.err(fa);
+        if (!fa) { int fb = hwloc_topology_load(t); d.err(fb); if (!fb) { hwloc_topology_destroy(t); t = nullptr; if (hwloc_topology_init(&t)) { d.err(-1); return -1; } d.err(hwloc_topology_set_flags(t, flags)); } }
+      }
+      rc = hwloc_topology_set_xmlbuffer(t, it->second.data(), (int)it->second.size() + 1); } }
   else if (kind == "fsroot") {   // HWLOC_FSROOT / HWLOC_COMPONENTS were set by the main task before the phase
     rc = 0;
     // a quarter of the snapshot loads blacklist one discovery phase of the linux component for THIS topology only (the cpu phase is never
